@@ -31,6 +31,7 @@ class Script:
         self.timeouts = 0
         self.marks: dict = {}
         self.on_bytes: Optional[Callable[[bytes], None]] = None
+        self.hold_flush = False
 
     def start_at(self, t: float) -> "Script":
         self.sim.at(t, self._connect)
@@ -67,6 +68,8 @@ class Script:
     def flush(self) -> None:
         """Send whatever the protocol peer queued (acks, window updates, uploads)."""
         take = getattr(self.parser, "take_out", None)
+        if self.hold_flush:
+            return  # the client is still in the middle of writing its own opening bytes
         if take is not None:
             out = take()
             if out:
